@@ -19,7 +19,7 @@ pub fn generate(rng: &mut Rng, tier: Tier, stats: &mut GenStats) -> Scenario {
     let tree = g.tree(links);
     let model = Model::from_tree(&tree).unwrap();
     let cwd = g.pick_dir(&model, 30);
-    let nw = if g.rng.chance(1, 6) { 2 } else { 1 };
+    let nw = if g.rng.chance(1, 6) { if tier == Tier::Thorough && g.rng.chance(1, 3) { 3 } else { 2 } } else { 1 };
     let has_links = tree.iter().any(|n| matches!(n.kind, Kind::Link { .. }));
     let mut walkers = Vec::new();
     for _ in 0..nw {
